@@ -226,7 +226,9 @@ def native_confirm(S, info):
         s = info.get(key)
         if s:
             cands.append(('$ (%sa) $\n' % s if key == 'lead' else '$ (a%s) $\n' % s, '(' if key == 'lead' else 'a', 'a' if key == 'lead' else ')', s))
-    cands += [('$ a b $\n', 'a', 'b', ' '), ('$ a\n b $\n', 'a', 'b', '\n '), ('$ ab $\n', 'a', 'b', ''), ('$ ( a ) $\n', '(', 'a', ' '), ('$ (a) $\n', '(', 'a', '')]
+    cands += [('$ ( a\n) $\n', 'a', ')', '\n'), ('$ (\n a ) $\n', 'a', ')', ' '), ('$ (\n a ) $\n', '(', 'a', '\n '), ('$ ( a\n) $\n', '(', 'a', ' '),
+              ('$ [ a +\n b\n] $\n', 'b', ']', '\n'),
+              ('$ a b $\n', 'a', 'b', ' '), ('$ a\n b $\n', 'a', 'b', '\n '), ('$ ab $\n', 'a', 'b', ''), ('$ ( a ) $\n', '(', 'a', ' '), ('$ (a) $\n', '(', 'a', '')]
     for src, l, r, ws in cands:
         if S.driver.call('erroneous', hexs(src))[1] == '1':
             continue
